@@ -1,5 +1,5 @@
 pub mod option_i64_null_as_zero {
-    use serde::de::{Deserializer, Error};
+    use serde::de::{Deserializer, Error, Unexpected};
     use std::fmt;
 
     struct IntVisitor;
@@ -23,7 +23,10 @@ pub mod option_i64_null_as_zero {
             if value == 0 {
                 Ok(None)
             } else {
-                Ok(Some(value as i64))
+                // values above i64::MAX are not representable: report them instead of wrapping around
+                i64::try_from(value)
+                    .map(Some)
+                    .map_err(|_| Error::invalid_value(Unexpected::Unsigned(value), &self))
             }
         }
     }
